@@ -5,9 +5,9 @@ cd $WT || exit 1
 for m in mutants/m*; do
   [ -f $m/patch.diff ] || continue
   git checkout -q -- xgcm
-  PYTHONPATH=$WT /venv/bin/python $m/demo.py >/dev/null 2>&1; clean=$?
+  PYTHONPATH=$WT:/tmp/numba_standin /venv/bin/python $m/demo.py >/dev/null 2>&1; clean=$?
   git apply $m/patch.diff || { echo "$WT $m apply-failed" >> $OUT; continue; }
-  PYTHONPATH=$WT /venv/bin/python $m/demo.py >/dev/null 2>&1; mut=$?
+  PYTHONPATH=$WT:/tmp/numba_standin /venv/bin/python $m/demo.py >/dev/null 2>&1; mut=$?
   t=$(/venv/bin/python -m pytest -q -p no:cacheprovider -n 6 --timeout=900 xgcm/test 2>&1 | tail -1)
   git checkout -q -- xgcm
   echo "$WT $m demo_clean_rc=$clean demo_mutant_rc=$mut tests: $t" >> $OUT
